@@ -335,6 +335,16 @@ def run_check(prop, tier, seed, nruns=None, workers=None, selfcheck=None):
     sigc = collections.Counter(v["sig"] for v in viol)
     if sigc:
         say("  violation signatures: " + ", ".join(f"{k} x{n}" for k, n in sigc.most_common(12)))
+    extra = None
+    if hasattr(eng, "post_batch") and not viol:
+        try:
+            prc, extra = eng.post_batch(seed, tier, ordered, say)
+        except Exception as e:
+            say(f"HARNESS-ERROR property={prop} post-batch check: {e!r}")
+            return 2
+        if prc:
+            rc = prc
+            reported.append("cross-session")
     known = load_known(prop)
     kseen = collections.Counter()
     for r in ordered:
@@ -344,7 +354,7 @@ def run_check(prop, tier, seed, nruns=None, workers=None, selfcheck=None):
             f"(observed in {kseen.get(sig, 0)} steps of this run)")
 
     write_evidence(prop, tier, seed, eng, ordered, time.time() - t0,
-                   len(viol), nself, reported)
+                   len(viol), nself, reported, extra)
     ninc = sum(1 for r in ordered if r["result"] == "inconclusive")
     say(f"{prop} tier={tier} seed={seed} runs={nruns} violations={len(viol)} "
         f"inconclusive={ninc} wall={time.time() - t0:.1f}s rc={rc}")
